@@ -1196,7 +1196,7 @@ def run(ctx):
     ctx.extra["targets_covered"] = ["riscv:rvc"]
     preload()
     n = ctx.scale(208, 10000)
-    nc = ctx.scale(2, 40)
+    nc = ctx.scale(1, 40)
     ctx.pmap(_worker, [(subseed(ctx.seed, PID, w), n // 16, not ctx.quick, nc) for w in range(16)])
     ctx.extra["relocations_shrunk"] = ctx.stats.hist.get("relocations_shrunk", 0)
 
@@ -1259,10 +1259,13 @@ def _walk_lockstep(du, dr, base_u, base_r, used):
         a, la = _decode_at(du, ou, used)
         b, lb = _decode_at(dr, orr, used)
         if a is None or b is None:
-            if du[ou : ou + 2] == b"\0\0" and dr[orr : orr + 2] == b"\0\0":
-                rows.append((ou, orr, None, None))  # alignment padding
-                ou += 2
-                orr += 2
+            n = 4 if du[ou] & 3 == 3 else 2
+            if a is None and b is None and du[ou : ou + n] == dr[orr : orr + n]:
+                # alignment padding (zeros), or an encoding outside RV32IMC that the code generator emitted in both
+                # links alike (e.g. the reserved `c.lui rd, 0`): not relaxation's business (C05/C08)
+                rows.append((ou, orr, None, None))
+                ou += n
+                orr += n
                 continue
             return ("undecodable instruction at unrelaxed %#x / relaxed %#x" % (ou, orr), None, 0)
         if la != lb:
